@@ -471,12 +471,18 @@ class G:
         self.readonly.add(i)
         self.loopvars.add(i)   # the index is only used through op.Cast(i, to=...): Python int vs INT64 tensor readings differ otherwise
         body = []
+        kill_live = kill_var is not None and r.random() < 0.5
         if kill_var is not None:
             try:
-                body += self._if_kill_then_read(e2, indent + 1, i, kill_var)
+                if kill_live:
+                    # variant: kv is assigned in both branches without being read, is not read in the body, and IS live
+                    # after the loop: the last iteration's value must come out of the loop
+                    body += self._if_kill_both(e2, indent + 1, i, kill_var)
+                else:
+                    body += self._if_kill_then_read(e2, indent + 1, i, kill_var)
                 self.readonly.add(kill_var)
             except Bail:
-                pass
+                kill_live = False
         use_i = r.random() < 0.5
         for w in carried:
             if use_i and e2[w].a.dtype.kind in "fi":
@@ -502,7 +508,10 @@ class G:
             body.append("    " * (indent + 2) + "break")
             self.feat.add("for_with_break")
         out = pre + ["    " * indent + f"for {i} in range({bound}):"] + body
-        if kill_var is not None:
+        if kill_var is not None and kill_live and int(bound) > 0:
+            env[kill_var] = e2[kill_var]
+            self.must_use.append(kill_var)
+        elif kill_var is not None:
             env.pop(kill_var, None)      # dead after the loop
         self.feat.add("for_loop")
         self.must_use.append(carried[-1])
@@ -530,6 +539,41 @@ class G:
         out += self.emit(f"{w} = ({w} + {v})", e2, indent)
         self.feat.add("loop_if_kills_then_read")
         self.must_use.append(w)
+        return out
+
+    def _if_kill_both(self, e2, indent, i, v):
+        r = self.rng
+        vv = e2[v]
+        u, _ = self.pick(e2, lambda a: a.dtype == vv.a.dtype and a.shape == vv.a.shape)
+        if u == v:
+            raise Bail("need another variable")
+        rhs = []
+        for _ in range(8):
+            x = self.expr_like(e2, u, 1)
+            if v not in x.replace(u, "") and x not in rhs:
+                rhs.append(x)
+            if len(rhs) == 2:
+                break
+        if len(rhs) < 2:
+            raise Bail("rhs")
+        c = self.fresh("ck")
+        out = self.emit(f"{c} = (op.Cast({i}, to=7) == {r.choice([0, 1, 1, 2])})", e2, indent)
+        e3, e4 = dict(e2), dict(e2)
+        a = self.emit(f"{v} = {rhs[0]}", e3, indent + 1)
+        b = self.emit(f"{v} = {rhs[1]}", e4, indent + 1)
+        # a second variable updated (and read) in both branches keeps the If from being refused for lack of outputs
+        try:
+            w, _ = self.pick(e2, lambda q: q.dtype.kind in "fi", writable=True)
+            if w != v:
+                a += self.emit(f"{w} = {self.expr_like(e3, w, 1)}", e3, indent + 1)
+                b += self.emit(f"{w} = {self.expr_like(e4, w, 1)}", e4, indent + 1)
+                e2[w] = e4[w]
+                self.must_use.append(w)
+        except Bail:
+            pass
+        out += ["    " * indent + f"if {c}:"] + a + ["    " * indent + "else:"] + b
+        e2[v] = e4[v]
+        self.feat.add("loop_if_kills_live_out")
         return out
 
     def st_while(self, env, indent, depth):
